@@ -133,6 +133,8 @@ namespace occa {
   bool modeKernel_t::isNoop() const {
     return (
       outerDims.isZero() || innerDims.isZero()
+      // An empty run-time loop gives a negative iteration count
+      || outerDims.hasNegativeEntries() || innerDims.hasNegativeEntries()
     );
   }
 }
